@@ -168,6 +168,10 @@ def run_scenario(job, ks):
     with shadowed():
         for o in ex.explore(run):
             if o.exc is not None:
+                from ..harness import exc_origin
+                if exc_origin(o.exc) == "harness":
+                    ob.fail_harness(f"harness raised: {o.exc!r}")
+                    continue
                 results.append(dict(exc=o.exc, pc=o.pc))
             else:
                 d = o.value
@@ -291,12 +295,12 @@ def run_job(job):
             k = ks[0]
             sn = p["snaps"][0]
             if name == "pi":
-                ob.prove(f"at-most-k[path{pi_}]", [], sn["iteration"] <= k and sn["pol_calls"] == sn["iteration"], cex=cexf,
+                ob.prove(f"at-most-k[path{pi_}]", pc, sn["iteration"] <= k and sn["pol_calls"] == sn["iteration"], cex=cexf,
                          kind="solve(k) performs at most k iterations; iteration == number of improvement steps")
                 continue
             n = sn["calls"]
-            ob.prove(f"at-most-k[path{pi_}]", [], n <= k, cex=cexf, kind="solve(k) performs at most k sweeps")
-            ob.prove(f"iteration==sweeps[path{pi_}]", [], sn["iteration"] == n, cex=cexf, kind="iteration == number of sweeps")
+            ob.prove(f"at-most-k[path{pi_}]", pc, n <= k, cex=cexf, kind="solve(k) performs at most k sweeps")
+            ob.prove(f"iteration==sweeps[path{pi_}]", pc, sn["iteration"] == n, cex=cexf, kind="iteration == number of sweeps")
             its, gains = reference_iterates(job, U, p["v0"], n)
             for i in range(S):
                 ob.prove(f"values==U^n(V0)[path{pi_},{i}]", pc, zx.eq(sn["values"][i], its[n][i]), cex=cexf,
@@ -317,7 +321,7 @@ def run_job(job):
                     # n == k: either converged at k or limit reached; the path condition must decide which
                     c1 = _implied(pc, zx.Z(below) if zx.is_z(below) else z3.BoolVal(bool(below)))
                     c2 = _implied(pc, z3.Not(zx.Z(below)) if zx.is_z(below) else z3.BoolVal(not bool(below)))
-                    ob.prove(f"last-sweep-decided[path{pi_}]", [], c1 or c2, cex=cexf, kind="path decides the last measure")
+                    ob.prove(f"last-sweep-decided[path{pi_}]", pc, c1 or c2, cex=cexf, kind="path decides the last measure")
         else:
             # composability: compare with the single solve(k1+k2) on compatible paths
             sn_mid = p["snaps"][:-1]
@@ -389,6 +393,10 @@ def run_init(job, ob):
     with shadowed():
         for o in ex.explore(run):
             if o.exc is not None:
+                from ..harness import exc_origin
+                if exc_origin(o.exc) == "harness":
+                    ob.fail_harness(f"harness raised: {o.exc!r}")
+                    continue
                 ob.fail_harness(f"constructor raised: {o.exc!r}")
                 continue
             v0, vals, it, shape, npad = o.value
@@ -451,9 +459,14 @@ def replay(data):
     return sequence_replay(job, g, e, V0, outs)
 
 
-def _real_run(job, g, e, V0, outs, ks):
+def _real_run(job, g, e, V0, outs, ks, seed=0):
     from ..tab import Tab
-    pb = Tab(2, 2, 1, V0=V0)
+    if seed == "designed":
+        # greedy action = the successor with the larger value, so the policy follows the sweep results
+        T, R, P = np.array([[[0], [1]], [[0], [1]]]), np.zeros((2, 2, 1)), np.ones((2, 2, 1))
+    else:
+        T, R, P, _ = kit.rand_tables(2, 2, 1, seed)
+    pb = Tab(2, 2, 1, T=T, R=R, P=P, V0=V0)
     kw = dict(epsilon=e)
     if job["solver"] != "rvi":
         kw["gamma"] = g
@@ -463,8 +476,7 @@ def _real_run(job, g, e, V0, outs, ks):
     def fake(bs, a, ev, gm, v):
         calls[0] += 1
         return jnp.asarray(outs[min(calls[0] - 1, len(outs) - 1)])
-    s._update_values = fake
-    s._extract_policy = lambda: jnp.zeros((2, 1), dtype=jnp.int32)
+    s._update_values = fake   # the real policy extraction stays in place
     its = []
     for k in ks:
         s.solve(k)
@@ -476,22 +488,31 @@ def compose_replay(job, g, e, V0, outs):
     total = sum(job["ks"])
     while len(outs) < total:
         outs.append((outs[-1] if outs else V0) + 1.0 + np.arange(len(V0)))
-    try:
-        a, na, its = _real_run(job, g, e, V0, outs, job["ks"])
-        b, nb, _ = _real_run(job, g, e, V0, outs, [total])
-    except Exception as ex:
-        return True, f"raised {type(ex).__name__}: {ex}"
-    # precondition: every earlier call stopped at its limit and not by convergence -> the single call passes that point too
-    limits = np.cumsum(job["ks"])[:-1]
-    if any(i != l for i, l in zip(its[:-1], limits)) or b.iteration < limits[-1] + 1:
-        return False, "an earlier call converged: composability is not claimed"
-    same = a.iteration == b.iteration and np.allclose(np.asarray(a.values), np.asarray(b.values))
-    if hasattr(a, "gain"):
-        same = same and abs(float(a.gain) - float(b.gain)) < 1e-9
-    if hasattr(a, "history_index"):
-        same = same and a.history_index == b.history_index and np.allclose(np.asarray(a.value_history), np.asarray(b.value_history))
-    return (not same), (f"{job['solver']} solve{job['ks']}: iteration {a.iteration} values {np.asarray(a.values)}; single solve({total}): "
-                        f"iteration {b.iteration} values {np.asarray(b.values)}")
+    msg = ""
+    designed = [np.array([10.0 * (i + 1), 0.0]) if i % 2 == 0 else np.array([0.0, 10.0 * (i + 1)]) for i in range(total)]
+    for seed in list(range(6)) + ["designed"]:
+        # the model's sweep results first; then the same call schedule with sweep results that make the greedy policy move
+        use = designed if seed == "designed" else outs
+        try:
+            a, na, its = _real_run(job, g if seed != "designed" else (g if job["solver"] == "rvi" else min(g, 0.9) or 0.9), e if seed != "designed" else 1e-6, V0, use, job["ks"], seed)
+            b, nb, _ = _real_run(job, g if seed != "designed" else (g if job["solver"] == "rvi" else min(g, 0.9) or 0.9), e if seed != "designed" else 1e-6, V0, use, [total], seed)
+        except Exception as ex:
+            return True, f"raised {type(ex).__name__}: {ex}"
+        # precondition: every earlier call stopped at its limit and not by convergence -> the single call passes that point too
+        limits = np.cumsum(job["ks"])[:-1]
+        if any(i != l for i, l in zip(its[:-1], limits)) or b.iteration < limits[-1] + 1:
+            return False, "an earlier call converged: composability is not claimed"
+        same = a.iteration == b.iteration and np.allclose(np.asarray(a.values), np.asarray(b.values))
+        same = same and np.array_equal(np.asarray(a.policy), np.asarray(b.policy))
+        if hasattr(a, "gain"):
+            same = same and abs(float(a.gain) - float(b.gain)) < 1e-9
+        if hasattr(a, "history_index"):
+            same = same and a.history_index == b.history_index and np.allclose(np.asarray(a.value_history), np.asarray(b.value_history))
+        msg = (f"{job['solver']} solve{job['ks']}: iteration {a.iteration} values {np.asarray(a.values)} policy {np.asarray(a.policy).ravel()}; "
+               f"single solve({total}): iteration {b.iteration} values {np.asarray(b.values)} policy {np.asarray(b.policy).ravel()}")
+        if not same:
+            return True, msg
+    return False, msg
 
 
 def sequence_replay(job, g, e, V0, outs):
@@ -509,7 +530,7 @@ def sequence_replay(job, g, e, V0, outs):
     try:
         s = construct(job, pb, kw)
     except Exception as ex:
-        return True, f"construction failed: {ex!r}"
+        return False, f"counterexample parameters rejected at construction: {ex!r}"
     calls = [0]
 
     def fake(bs, a, ev, gm, v):
